@@ -17,6 +17,10 @@ func Eval(ctx context.Context, source string, options ...Option) (object.Object,
 	cfg := NewConfig(options...)
 
 	// Parse the source code to create the AST
+	if err := cfg.init(); err != nil {
+		return nil, err
+	}
+
 	var parserOpts []parser.Option
 	if cfg.filename != "" {
 		parserOpts = append(parserOpts, parser.WithFilename(cfg.filename))
@@ -45,6 +49,9 @@ func Eval(ctx context.Context, source string, options ...Option) (object.Object,
 // EvalCode evaluates the precompiled code and returns the result.
 func EvalCode(ctx context.Context, main *compiler.Code, options ...Option) (object.Object, error) {
 	cfg := NewConfig(options...)
+	if err := cfg.init(); err != nil {
+		return nil, err
+	}
 
 	// Use the specified VM if provided
 	if cfg.vm != nil {
@@ -66,6 +73,9 @@ func Call(
 	options ...Option,
 ) (object.Object, error) {
 	cfg := NewConfig(options...)
+	if err := cfg.init(); err != nil {
+		return nil, err
+	}
 
 	// Determine whether to use an existing VM or create a new one
 	var err error
